@@ -335,6 +335,27 @@ def decode(c):
 FNS = {'int_rnn': int_rnn, 'real_rnn': real_rnn, 'attention': attention, 'decode': decode}
 
 
+def masks(c):
+  """make_attention_mask / make_causal_mask / combine_masks of Linen and NNX on integer inputs, with the dtype asked for"""
+  from flax.nnx.nn import attention as nattn
+  dt = {'f32': jnp.float32, 'bf16': jnp.bfloat16, 'f16': jnp.float16, 'bool': jnp.bool_}[c['dtype']]
+  q, k = jnp.asarray(np.array(c['q'], dtype=np.int32)), jnp.asarray(np.array(c['k'], dtype=np.int32))
+  fn = {'mul': jnp.multiply, 'eq': jnp.equal, 'ge': jnp.greater_equal}[c['fn']]
+  out = {}
+  for api, mod in (('linen', nn), ('nnx', nattn)):
+    m = mod.make_attention_mask(q, k, fn, dtype=dt)
+    cm = mod.make_causal_mask(jnp.zeros((c['n'],), jnp.int32) + c['offset'], dtype=dt)
+    parts = [None if i in c['none'] else jnp.asarray(np.array(p, dtype=bool))[None] for i, p in enumerate(c['parts'])]
+    comb = mod.combine_masks(*parts, dtype=dt)
+    out[api] = {'mask': (np.asarray(m).astype(np.float32) != 0)[0].tolist(), 'mask_shape': list(m.shape), 'mask_dtype': str(m.dtype),
+                'causal': (np.asarray(cm).astype(np.float32) != 0)[0].tolist(), 'causal_shape': list(cm.shape),
+                'combined': None if comb is None else (np.asarray(comb).astype(np.float32) != 0)[0].tolist()}
+  return out
+
+
+FNS['masks'] = masks
+
+
 def main(payload):
   res = []
   for c in payload['cases']:
